@@ -2,6 +2,6 @@
 from composite import install
 TIE = "corr:pe"
 TIE_THEOREM = "Relic.Props.C01 (models Relic.Model.PE vs lib/authenticode)"
-UNPROVED = ['Relic.Props.C01.pe_sign_then_verify_full']
+UNPROVED = []
 IMPL_PARALLEL = 16
-install(globals(), "C01", ["pe"])
+install(globals(), "C01", ["pe", "e2e"])
